@@ -467,8 +467,6 @@ def known_corr(case, res):
     refs = _refs_of(case)
     rdocs = [resolve(docs[:-1], r) for r in refs]
     als = corr.get("aliases") or {}
-    if als and corr.get("group-by") is None and case["pipe"]:
-        return "C10-alias-target-not-renamed-without-group-by"
     for mp in als.values():
         for key in mp:
             i = resolve(docs[:-1], key)
